@@ -20,7 +20,7 @@ from harness.e2e_views import bounded_views
 
 PROPERTY = Property(
     'C01', 'Sequence numbers: the client view never diverges from the server',
-    contracts=[S.sm_update, S.sm_remove, S.compare], registry=S.REG,
+    contracts=[S.sm_update, S.sm_remove, S.compare] + S.CONTRACTS_LINK, registry=S.REG,
     bounded=[Bounded(
         'two sessions on one mailbox, client model',
         'quick: every victim program of 2 commands from 9 (NOOP, FETCH, UID FETCH x2, STORE, STORE.SILENT, UID '
@@ -35,6 +35,9 @@ PROPERTY = Property(
                 'exhaustively on the stated scope with the real server',
     trusted_base=['models of the response constructors (kind, number) and of chain/groupby in _compare',
                   'induction principle over naturals (prefix lemma: steps proved, conclusion assumed)',
-                  'requires of _compare (frozen views are rank maps, new uids above old ones, hidden expunges stay '
-                  'in view) are established by fork/add_updates -- bounded, not yet proved'],
+                  'the requires of _compare are proved at its call site in fork from the fork invariant, which add_updates '
+                  'preserves and _Frozen.__init__ establishes, under two stated backend assumptions (new uids are delivered '
+                  'above everything delivered before: C04; a deferred expunge carries no session flags or is listed again); '
+                  'that hide_expunged only changes right after a fork (when _prev equals the view) is a protocol argument '
+                  '(do_command / do_fetch / do_store / do_search), covered by the bounded run'],
 )
